@@ -299,6 +299,7 @@ type grpcClientConn struct {
 	responseHeader   http.Header
 	responseTrailer  http.Header
 	readTrailers     func(*grpcUnmarshaler, *duplexHTTPCall) http.Header
+	trailersMerged   bool
 }
 
 func (cc *grpcClientConn) Spec() Spec {
@@ -333,10 +334,15 @@ func (cc *grpcClientConn) Receive(msg any) error {
 		return err
 	}
 	// See if the server sent an explicit error in the HTTP or gRPC-Web trailers.
-	mergeHeaders(
-		cc.responseTrailer,
-		cc.readTrailers(&cc.unmarshaler, cc.duplexCall),
-	)
+	// Receive may be called again after the stream has ended: merge the
+	// trailers only once, or every further call would append them again.
+	if !cc.trailersMerged {
+		cc.trailersMerged = true
+		mergeHeaders(
+			cc.responseTrailer,
+			cc.readTrailers(&cc.unmarshaler, cc.duplexCall),
+		)
+	}
 	serverErr := grpcErrorFromTrailer(cc.bufferPool, cc.protobuf, cc.responseTrailer)
 	if serverErr != nil && (errors.Is(err, io.EOF) || !errors.Is(serverErr, errTrailersWithoutGRPCStatus)) {
 		// We've either:
